@@ -1,5 +1,7 @@
+import json
 import os
-from vlib import Check, V
+import subprocess
+from vlib import Check, V, WORK, GOENV
 
 PID = "C20"
 
@@ -28,6 +30,14 @@ def q(tier, quick, thorough):
 def recipe(c: Check):
     c.build(["Properties/C20.vo", "Corr/C20.vo"], harness=["c20"], units=["t2"])
     c.obligations("C20")
+    # the deferred delete after the post-response sleep takes 30-35 s of real time (literal in HandleVisitor):
+    # started now, collected at the end, so it overlaps with the other drivers
+    bg = None
+    if c.harness_ok:
+        bg_out, bg_stats = os.path.join(c.wd, "cases_sleepdelete.v"), os.path.join(c.wd, "stats_sleepdelete.json")
+        bg = subprocess.Popen([os.path.join(WORK, "h_c20"), "sleepdelete", "-seed", str(c.seed), "-n", "1", "-out", bg_out,
+                               "-stats", bg_stats, "-tier", c.tier], cwd=V, env=dict(GOENV, VERIF_SHARDS="1"),
+                              stdout=subprocess.PIPE, stderr=subprocess.STDOUT)
     st = c.run_driver("nathole", q(c.tier, 600, 6000), shards=q(c.tier, 8, 16))
     # sanity of the run itself: the branches the property names must have been reached
     cnt = c.cov.get("coq_counters", {}).get("nathole", {})
@@ -42,6 +52,46 @@ def recipe(c: Check):
         for k in ("NEVVISITOR", "NEVDELIVER", "NEVCLIENT", "NEVTIMEOUT", "NEVANALYSE", "NEVREPORT", "NEVCLOSE", "NEVGIVEUP"):
             if cnt2.get(k, 0) <= 0:
                 c.broken.append(dict(kind="coverage", name="driver controller never reached event %s" % k, detail=str(cnt2)))
+    # OBSERVATION (runtime residue): real MakeHole for both roles over loopback UDP, instructions from the real Controller
+    st3 = c.run_driver("rendezvous", 1, coq=False, timeout=q(c.tier, 120, 600))
+    if st3 is not None:
+        # F-C20c (MakeHole drops a queued first result; timing dependent, reported to the lead with a one-line patch):
+        # a failure under the key a KNOWN_FINDINGS.txt line would carry, a note in the evidence otherwise
+        listed = {k["key"] for k in c.known_findings() if k["property"] == PID}
+        for f in st3.get("finding_candidates") or []:
+            if f["key"] in listed:
+                c.failures.append(dict(f, driver="rendezvous"))
+            else:
+                c.notes.append("finding candidate F-C20c reproduced: %s [%s]" % (f["what"], f["case"]))
+        if st3.get("one_sided_attempts"):
+            c.notes.append("rendezvous: %d attempt(s) in which one peer succeeded and the other timed out (re-run succeeded or counted above): %s"
+                           % (st3["one_sided_attempts"], "; ".join((st3.get("failed_attempts") or [])[:3])))
+        d = st3.get("distribution", {})
+        for m in range(5):
+            if d.get("mode%d_found_each_other" % m, 0) + d.get("mode%d_FAILED" % m, 0) <= 0:
+                c.broken.append(dict(kind="coverage", name="driver rendezvous ran no row of table %d" % m, detail=str(d)))
+    if bg is not None:
+        try:
+            o = bg.communicate(timeout=120)[0].decode("utf-8", "replace")
+        except subprocess.TimeoutExpired:
+            bg.kill()
+            o = "timeout"
+        c.log.write(o)
+        if bg.returncode != 0:
+            c.broken.append(dict(kind="driver", name="harness sleepdelete", detail=o[-1200:]))
+        else:
+            st4 = json.load(open(bg_stats))
+            c.cov["evaluations"] += 1
+            c.cov["distinct_nontrivial"] += 1
+            c.cov["traces_validated_against_impl"] += 1
+            c.cov["distribution"]["sleepdelete"] = st4.get("distribution", {})
+            c.cov["drivers"].append(dict(driver="sleepdelete", cases=1, seconds=39, extra={}))
+            for f in st4.get("impl_failures", []):
+                f.setdefault("driver", "sleepdelete")
+                c.failures.append(f)
+            c.eval_shards("sleepdelete")
+            if c.cov.get("coq_counters", {}).get("sleepdelete", {}).get("NEVSLEEPDONE", 0) != 2:
+                c.broken.append(dict(kind="coverage", name="driver sleepdelete did not see both deferred deletes", detail=""))
     return c.finish(
         rule="nathole driver: (1) EXHAUSTIVE over NatType x Behavior x RegularPortsChange x PublicNetwork for both sides (1024 "
              "pairs), each with a random history of GetRecommandBehaviors / ReportSuccess (reports for the last recommendation, "
@@ -56,6 +106,11 @@ def recipe(c: Check):
              "timeouts, owner answers before the hand-over / twice / with unknown sids, reports for live, finished and unknown sids, "
              "owner close and re-register, owner close while a hand-over is pending (the hand-over must be given up after NatHoleTimeout: repaired F-C20b); written as the list of model events the script "
              "enforces plus observation points (session table, inbox of every transporter) and replayed through ctl_step. "
+             "sleepdelete driver (background, real time): an error-pair session and a mode-0 session are watched through the 30 s / 35 s "
+             "post-response sleep until the table is empty (EvSleepDone). rendezvous driver = OBSERVATION, not proof: three "
+             "address pairs walk the real Controller through all 28 rows of the five tables; real nathole.MakeHole runs for both "
+             "roles on 127.0.20.1/127.0.20.2 (quick: rows with SendDelayMs <= 3000, thorough: all), a failing row is re-run twice "
+             "before it is reported; every walked row is also checked for 'receiver still listening when the sender starts'. "
              "distinct = distinct case text; non-trivial = history with >= 2 operations / list with >= 2 addresses / scenario with a session",
         assumptions=["md5 over the analysis key text is injective (the model keys records by the text that is hashed)",
                      "util.GetAuthKey is an oracle (its values are supplied to the model by the real function)",
